@@ -225,8 +225,15 @@ func Build(rng *rand.Rand, p Params) (*Scenario, error) {
 	if err != nil {
 		return nil, err
 	}
+	honestDoc := DIDAnswer{DID: did, State: HexOf(sc.Snap.State), Published: p.Published}
+	switch rng.Intn(3) {
+	case 0: // state info first, keys after it
+		honestDoc.VMs = []VMJ{{StateInfo: true, Published: p.Published}, {}, {}}
+	case 1: // in the middle
+		honestDoc.VMs = []VMJ{{}, {StateInfo: true, Published: p.Published}, {}}
+	} // else the default: [key, state info]
 	sc.Env = Env{
-		DID: []DIDAnswer{{DID: did, State: HexOf(sc.Snap.State), Published: p.Published}},
+		DID: []DIDAnswer{honestDoc},
 		Reg: []RegEntry{{Type: StatusType, Answer: ans}},
 	}
 	// material for faults
